@@ -255,6 +255,18 @@ class DimensionedItem:
     axis: Attribute
     dimension: "DimensionAttribute"
 
+    _dimension_from_value: Optional[list] = None  #: the dimension as derived from a value at the latest check, if it was
+
+    def _forget_derived_dimension(self) -> None:
+        """Drop a dimension which was derived from a value at an earlier check (and not changed since).
+
+        Only a dimension assigned by the user is checked against; a derived one is derived anew from the current values.
+        """
+
+        if self._dimension_from_value is not None and self.dimension.value is self._dimension_from_value:
+            self.dimension._value = None
+        self._dimension_from_value = None
+
     def _check_axis_vs_dimension(self) -> None:
         """Check that the number of axes matches the number of dimensions defined for the EFLRItem."""
 
@@ -298,3 +310,4 @@ class DimensionedItem:
                                    f"the specified dimensionality: {self.dimension.value}")
         else:
             self.dimension.value = dim_from_value
+            self._dimension_from_value = self.dimension.value
